@@ -4,3 +4,12 @@ mod storage;
 
 pub(crate) use self::manager::{WalAppendInfo, WalManager};
 pub use self::manager::{WalError, WalIoOperation, WalReplayIoStep};
+
+#[cfg(feature = "verif")]
+pub(crate) fn verif_segment_reader(
+    segment_id: u64,
+    path: std::path::PathBuf,
+    file: std::fs::File,
+) -> storage::SegmentReader {
+    storage::SegmentReader::new(segment_id, path, file)
+}
